@@ -5,7 +5,7 @@ From Coq Require Import List Arith ZArith Ring Lia Reals RealField.
 From TLV Require Import Base.Shape Base.PyList Base.Tensor Base.BigSum Base.Ops Model.Base Model.Factorized
   Proofs.FactorizedProofs Proofs.FactorizedProofs2 Proofs.FactorizedProofs3 Proofs.FactorizedProofs4
   Proofs.FactorizedProofs5 Proofs.FactorizedProofs6 Proofs.FactorizedProofs7 Proofs.FactorizedProofs8
-  Proofs.FactorizedProofs9 Proofs.FactorizedProofs10 Proofs.FactorizedProofs11 Proofs.FactorizedProofs12 Proofs.FactorizedProofs13.
+  Proofs.FactorizedProofs9 Proofs.FactorizedProofs10 Proofs.FactorizedProofs11 Proofs.FactorizedProofs12 Proofs.FactorizedProofs13 Proofs.FactorizedProofs14.
 Import ListNotations.
 
 Definition is_ring {F : Type} (Op : fops F) : Prop :=
@@ -410,6 +410,32 @@ Theorem C03_tucker_cache_valid : forall (F : Type) (core : tensor F) (fs : list 
     tk_consistent F (tk_set_factors (tk_set_core o core') fs').
 Proof. exact tucker_cache_valid. Qed.
 Print Assumptions C03_tucker_cache_valid.
+
+(* Parafac2Tensor((weights, factors, projections)) vs the tuple: same slice(i), slices, tensor and (slice shapes, rank), incl.
+   weights=None stored as ones(rank) *)
+Theorem C03_p2_tuple_vs_wrapper : forall (F : Type) (Op : fops F), is_ring Op ->
+  forall (w : option (tensor F)) (A B C : tensor F) (ps : list (tensor F)) (o : p2_obj) (I R : nat),
+  p2_new Op w [A; B; C] ps = Ok o -> shape A = [I; R] -> wf A ->
+  (forall i, p2o_to_slice Op o i = parafac2_to_slice Op w [A; B; C] ps i) /\
+  p2o_to_slices Op o = parafac2_to_slices Op w [A; B; C] ps /\
+  p2o_to_tensor Op o = parafac2_to_tensor Op w [A; B; C] ps /\
+  p2o_validate o = validate_parafac2 Op w [A; B; C] ps.
+Proof. exact p2_tuple_vs_wrapper. Qed.
+Print Assumptions C03_p2_tuple_vs_wrapper.
+
+(* TuckerTensor / TTTensor / TRTensor / TTMatrix: right after construction the object stores the given contents, its cache is the
+   validator's answer, and (the functions unpack the object) its reconstruction is the tuple's *)
+Theorem C03_tucker_tuple_vs_wrapper : forall (F : Type) (Op : fops F) (core : tensor F) (fs : list (tensor F)) (o : tk_obj)
+  (skip : option nat) (tr : bool),
+  tucker_new core fs = Ok o ->
+  tko_to_tensor Op o skip tr = tucker_to_tensor Op core fs skip tr /\ validate_tucker core fs = Ok (tko_shape o, tko_rank o).
+Proof. exact tucker_tuple_vs_wrapper. Qed.
+Print Assumptions C03_tucker_tuple_vs_wrapper.
+Theorem C03_chain_tuple_vs_wrapper : forall (F : Type) (validate : list (tensor F) -> res (list nat * list nat))
+  (cs : list (tensor F)) (o : ch_obj),
+  ch_new validate cs = Ok o -> cho_cores o = cs /\ validate cs = Ok (cho_shape o, cho_rank o).
+Proof. exact chain_tuple_vs_wrapper. Qed.
+Print Assumptions C03_chain_tuple_vs_wrapper.
 
 (* genuine defect (known finding): __setitem__ with an array of ANOTHER shape leaves the cache stale -- CPTensor then reports the old
    shape and to_tensor folds the new data into the old shape (a wrong tensor, silently); TTTensor reports a shape that is not the
